@@ -10,6 +10,7 @@ import (
 	"math"
 	"math/big"
 	"net"
+	"net/http"
 	"net/url"
 	"os"
 	"strings"
@@ -18,6 +19,7 @@ import (
 	z "github.com/Oudwins/zog"
 	"github.com/Oudwins/zog/parsers/zjson"
 	"github.com/Oudwins/zog/zenv"
+	"github.com/Oudwins/zog/zhttp"
 
 	"verif/harness/internal/rng"
 )
@@ -216,6 +218,20 @@ func streamDyn(seed uint64, n int) (*Summary, error) {
 		desc := fmt.Sprintf("json[%d] %.60q", i, doc)
 		guard("zjson Struct "+desc, func() { var d dDest; schema.Parse(zjson.Decode(strings.NewReader(doc)), &d) })
 		guard("zjson Ptr(Struct) "+desc, func() { var d *dDest; z.Ptr(schema).Parse(zjson.Decode(strings.NewReader(doc)), &d) })
+	}
+	// requests without a body (http.NewRequest(method, url, nil): r.Body == nil), every method and content type
+	for _, m := range []string{"GET", "POST", "PUT", "DELETE"} {
+		for _, ct := range []string{"", "application/json", "application/x-www-form-urlencoded", "text/plain"} {
+			m, ct := m, ct
+			guard("zhttp request without a body "+m+" "+ct, func() {
+				req, _ := http.NewRequest(m, "http://x/y?name=bob", nil)
+				if ct != "" {
+					req.Header.Set("Content-Type", ct)
+				}
+				var d dDest
+				schema.Parse(zhttp.Request(req), &d)
+			})
+		}
 	}
 	// environment
 	for _, kv := range [][2]string{{"name", "bob"}, {"age", "zz"}, {"when", "\xff"}, {"tags", " a , b "}, {"Ébène", "x"}, {"abcdefghijklmnopqrstuvwxyzabcdefghijklmnopqrstuv", "9"}} {
